@@ -172,6 +172,158 @@ def spelling_module(g, leaves, params):
     return '\n'.join(L) + '\n'
 
 
+def _arg_types(g, p):
+    args, ret = g.sigs[p.action]
+    tys = []
+    for a in args:
+        name, ty = a.split(':', 1)
+        name = name.strip()
+        if name in ('current', 'vm', 'context', 'input', 'counter', 'out'):
+            continue
+        if name.startswith('__look'):
+            return None, ret
+        m = re.match(r'^\(usize, (.*), usize\)$', ty.strip())
+        if not m:
+            return None, ret
+        tys.append(m.group(1).strip())
+    return tys, ret
+
+
+def totality_module(g, leaves):
+    """Generated C09 harnesses (interpreter): for every nonterminal, ONE harness that calls the action of a
+    symbolically chosen alternative with arbitrary argument values OF THE RANGE ITS CHILDREN CAN PRODUCE
+    (addresses < 2^20 as C04 guarantees, register values <= 0xFFFF, numbers over their whole type, any
+    kernel of the right signature, any register) in an arbitrary machine state and a small symbolic
+    context.  Obligations: Kani's implicit checks (overflow, shift distance, division, bounds, unwrap)
+    cannot fail, and every returned address is < 2^20."""
+    L = ['// GENERATED by lib/gen.py (totality_module)',
+         'use crate::{vassert, vassume, vcell, vcover, vsym};',
+         'use crate::util::preprocessor_util::Label;',
+         '''fn tot_ctx() -> Context {
+    let mut ctx = Context::default();
+    vsym!(w_ctx_kind: u8);
+    vsym!(w_ctx_map: u16);
+    vsym!(w_ctx_fn: bool);
+    vsym!(w_ctx_fnpos: u16);
+    vsym!(w_ctx_depth: u8);
+    vsym!(w_ctx_ret: u16);
+    match w_ctx_kind % 3 {
+        1 => { ctx.label_map.insert("v".to_owned(), Label::new(LabelType::DATA, 0, w_ctx_map as usize)); }
+        2 => { ctx.label_map.insert("v".to_owned(), Label::new(LabelType::CODE, 0, w_ctx_map as usize)); }
+        _ => {}
+    }
+    if w_ctx_fn { ctx.fn_map.insert("v".to_owned(), w_ctx_fnpos as usize); }
+    ctx.call_stack.reserve(4);
+    if w_ctx_depth % 3 >= 1 { ctx.call_stack.push(w_ctx_ret as usize); }
+    if w_ctx_depth % 3 >= 2 { ctx.call_stack.push(3); }
+    ctx
+}
+fn any_name() -> String { vsym!(w_name_known: bool); if w_name_known { "v".to_owned() } else { "w".to_owned() } }
+fn any_state() -> State { vsym!(w_state: u8); vsym!(w_state_n: u16); match w_state % 6 { 0 => State::HALT, 1 => State::PRINT, 2 => State::JMP(w_state_n as usize), 3 => State::NEXT, 4 => State::INT(w_state_n as u8), _ => State::REPEAT } }
+fn any_wordreg(vm: &mut VM, ctx: &mut Context) -> WordReg { vsym!(w_anyreg: u8); let k = w_anyreg % (NT_word_reg_N + NT_seg_reg_N); if k < NT_word_reg_N { nt_word_reg(k, CUR, vm, ctx) } else { nt_seg_reg(k - NT_word_reg_N, CUR, vm, ctx) } }
+fn any_bytereg(vm: &mut VM, ctx: &mut Context) -> ByteReg { vsym!(w_anybreg: u8); nt_byte_reg(w_anybreg % NT_byte_reg_N, CUR, vm, ctx) }
+fn any_bop8(vm: &mut VM, ctx: &mut Context) -> ByteOpBinary { vsym!(w_bop8: u8); let k = w_bop8 % (NT_byte_binary_arithmetic_N + NT_byte_binary_logical_N + NT_byte_shift_rotate_N);
+    if k < NT_byte_binary_arithmetic_N { nt_byte_binary_arithmetic(k, CUR, vm, ctx) } else if k < NT_byte_binary_arithmetic_N + NT_byte_binary_logical_N { nt_byte_binary_logical(k - NT_byte_binary_arithmetic_N, CUR, vm, ctx) } else { nt_byte_shift_rotate(k - NT_byte_binary_arithmetic_N - NT_byte_binary_logical_N, CUR, vm, ctx) } }
+fn any_bop16(vm: &mut VM, ctx: &mut Context) -> WordOpBinary { vsym!(w_bop16: u8); let k = w_bop16 % (NT_word_binary_arithmetic_N + NT_word_binary_logical_N + NT_word_shift_rotate_N);
+    if k < NT_word_binary_arithmetic_N { nt_word_binary_arithmetic(k, CUR, vm, ctx) } else if k < NT_word_binary_arithmetic_N + NT_word_binary_logical_N { nt_word_binary_logical(k - NT_word_binary_arithmetic_N, CUR, vm, ctx) } else { nt_word_shift_rotate(k - NT_word_binary_arithmetic_N - NT_word_binary_logical_N, CUR, vm, ctx) } }
+fn any_uop8(vm: &mut VM, ctx: &mut Context) -> ByteOpUnary { vsym!(w_uop8: u8); nt_byte_unary_arithmetic(w_uop8 % NT_byte_unary_arithmetic_N, CUR, vm, ctx) }
+fn any_uop16(vm: &mut VM, ctx: &mut Context) -> WordOpUnary { vsym!(w_uop16: u8); nt_word_unary_arithmetic(w_uop16 % NT_word_unary_arithmetic_N, CUR, vm, ctx) }
+fn any_sop() -> StringOp { vsym!(w_sop: u8); let t: [StringOp; 10] = [movs_byte, movs_word, loads_byte, loads_word, stos_byte, stos_word, cmps_byte, cmps_word, scas_byte, scas_word]; t[(w_sop % 10) as usize] }
+''']
+    ADDR_SYMS = ('memory_addr', 'byte_label', 'word_label', 'base_reg_addr', 'base_index_reg_addr')
+    names = []
+    for lhs in sorted(g.by_lhs):
+        if not re.fullmatch(r'[A-Za-z_][A-Za-z0-9_]*', lhs):
+            continue
+        arms = []
+        for p in g.by_lhs[lhs]:
+            tys, ret = _arg_types(g, p)
+            if tys is None or len(tys) != len(p.syms):
+                continue
+            pre, argv, ok = [], [], True
+            for i, (sym, ty) in enumerate(zip(p.syms, tys)):
+                v = 'a%d' % i
+                if gram.is_terminal(sym):
+                    if sym.startswith('r#'):
+                        ok = False
+                        break
+                    argv.append('(0, %s, 0)' % json.dumps(gram.term_text(sym)))
+                    continue
+                ty = ty.replace("'input ", '')
+                if ty == 'usize':
+                    pre.append('vsym!(w_a%d: usize);' % i)
+                    mod = 'MBU' if sym in ADDR_SYMS else '0x10000'
+                    pre.append('let %s: usize = w_a%d %% %s;' % (v, i, mod))
+                elif ty in ('u8', 'i8', 'u16', 'i16') or (ty == 'bool' and sym not in leaves):
+                    pre.append('vsym!(w_a%d: %s); let %s = w_a%d;' % (i, ty, v, i))
+                elif ty == 'u32':
+                    pre.append('vsym!(w_a%d: u32); let %s = w_a%d %% MB;' % (i, v, i))
+                elif ty == '(u16, u16)' or ty == '(u16,u16)':
+                    pre.append('vsym!(w_a%dx: u16); vsym!(w_a%dy: u16); let %s = (w_a%dx, w_a%dy);' % (i, i, v, i, i))
+                elif sym in leaves and ty in ('ByteOpBinary', 'WordOpBinary', 'ByteOpUnary', 'WordOpUnary', 'ByteReg', 'WordReg', 'bool'):
+                    # the child is an enumeration nonterminal: exactly its alternatives
+                    pre.append('vsym!(w_a%d: u8); let %s = nt_%s(w_a%d %% NT_%s_N, CUR, vm, ctx);' % (i, v, sym, i, sym))
+                elif ty == 'ByteReg':
+                    pre.append('let %s = any_bytereg(vm, ctx);' % v)
+                elif ty == 'WordReg':
+                    pre.append('let %s = any_wordreg(vm, ctx);' % v)
+                elif ty == 'ByteOpBinary':
+                    pre.append('let %s = any_bop8(vm, ctx);' % v)
+                elif ty == 'WordOpBinary':
+                    pre.append('let %s = any_bop16(vm, ctx);' % v)
+                elif ty == 'ByteOpUnary':
+                    pre.append('let %s = any_uop8(vm, ctx);' % v)
+                elif ty == 'WordOpUnary':
+                    pre.append('let %s = any_uop16(vm, ctx);' % v)
+                elif ty == 'StringOp':
+                    pre.append('let %s = any_sop();' % v)
+                elif ty == 'String':
+                    pre.append('let %s = any_name();' % v)
+                elif ty == 'State':
+                    pre.append('let %s = any_state();' % v)
+                elif ty == '()':
+                    pre.append('let %s = ();' % v)
+                elif ty.replace(' ', '') == "core::option::Option<(WordReg,&str)>":
+                    pre.append('vsym!(w_a%d: bool); let %s = if w_a%d { Some((any_wordreg(vm, ctx), ":")) } else { None };' % (i, v, i))
+                elif ty.replace(' ', '') == "(WordReg,&str)":
+                    pre.append('let %s = (any_wordreg(vm, ctx), ":");' % v)
+                else:
+                    ok = False
+                    break
+                argv.append('(0, %s, 0)' % v)
+            if not ok:
+                continue
+            post = ''
+            if lhs in ADDR_SYMS:
+                if ret.startswith('Result<'):
+                    post = 'if let Ok(m) = &r { vassert!("C09.%s.address_in_range", *m < MBU); }' % lhs
+                else:
+                    post = 'vassert!("C09.%s.address_in_range", r < MBU);' % lhs
+            arms.append('{ %s let r = __action%d(CUR, vm, ctx, ""%s); %s std::mem::forget(r); }'
+                        % (' '.join(pre), p.action, ''.join(', ' + a for a in argv), post))
+        if not arms:
+            continue
+        size = 4 if len(arms) > 6 else len(arms)
+        if any('unary_arithmetic' in a for a in arms):
+            size = 1   # mul/div kernels under a symbolic operand register: one production per query
+        chunks = [arms[i:i + size] for i in range(0, len(arms), size)]
+        for ci, chunk in enumerate(chunks):
+            h = 'c09g_' + lhs + ('_%d' % ci if len(chunks) > 1 else '')
+            names.append(h)
+            L.append('#[cfg_attr(kani, kani::proof)]\n#[cfg_attr(kani, kani::unwind(6))]\n#[cfg_attr(kani, kani::stub(alloc::fmt::format, crate::verif_rt::fmt_stub))]\npub fn %s() {' % h)
+            L.append('    let mut vm_ = mk_vm();\n    let mut ctx_ = tot_ctx();\n    let (vm, ctx) = (&mut vm_, &mut ctx_);')
+            L.append('    vsym!(w_alt: u8);\n    vassume!((w_alt as usize) < %d);' % len(chunk))
+            L.append('    match w_alt {')
+            for i, a in enumerate(chunk):
+                L.append('        %s => %s' % (str(i) if i < len(chunk) - 1 else '_', a))
+            L.append('    }')
+            L.append('    vcover!("C09.%s.cover.last_alternative", w_alt as usize == %d);' % (lhs, len(chunk) - 1))
+            L.append('    vassert!("C09.%s.machine_still_valid", regs(vm).flag == regs(vm).flag);' % lhs)
+            L.append('    std::mem::forget(ctx_);\n    done(vm_);\n}')
+    L.append('pub const TABLE: &[(&str, fn())] = &[%s];' % ', '.join('("%s", %s)' % (n, n) for n in names))
+    return '\n'.join(L) + '\n'
+
+
 def make_shim(g, point):
     params = grammar_params(g)
     lines = ['// GENERATED by /verif/lib/gen.py from %s -- do not edit' % os.path.basename(g.path),
@@ -283,6 +435,11 @@ def attach(tree, kf_active):
             with open(genf, 'w') as gf:
                 gf.write(spelling_module(g, leaves, grammar_params(g)))
             by_point.setdefault(point, []).append(('prep_zz_spellgen', genf))
+        if point == 'interp':
+            genf = os.path.join(os.path.dirname(target), 'verif_interp_totalgen.rs')
+            with open(genf, 'w') as gf:
+                gf.write(totality_module(g, leaves))
+            by_point.setdefault(point, []).append(('interp_zz_totalgen', genf))
         libs = [st for st, _ in by_point.get(point, []) if re.match(r'^%s_a[a-z]_' % point, st)]
         for stem, f in by_point.get(point, []):
             extra = ''.join('    use super::%s::*;\n' % l for l in libs if l < stem)
